@@ -95,7 +95,7 @@ print('REPRODUCED' if sorted(d for d in got if d[0] in ('W01', 'W02')) != sorted
 
 @harness(['C10'], 'supp.linter.lint + SourceScope.all_names [one never-read binding per kind and scope]',
          bounded='17 binding kinds x 6 scope kinds (module, class body, function, method, nested function, function in a method), each with a '
-                 'plain and an underscore identifier; 11 parameter / star-import / __future__ forms; one binding per module')
+                 'plain and an underscore identifier; 16 parameter / star-import / __future__ forms; 14 dotted-import and global / nonlocal declaration programs; one binding per module')
 def unused_table(run):
     """BOUNDED stand-in for `all_names enumerates every binding once`: the real lint on one-binding modules against the exemption table of the
     property statement.  Not counted as proved."""
@@ -148,4 +148,19 @@ def unused_table(run):
         one('dotted-import-used-directly', 'import logging.config\nlogging.foo()\nimport logging.other\n', [], path)
         one('dotted-import-never-used', 'import logging.config\nimport logging.other\n',
             [('W02', 'Unused import: logging', 1, 7), ('W02', 'Unused import: logging', 2, 7)], path)
+        # a dotted import made inside a function and read there is a used local; read nowhere it is an unused one
+        one('dotted-import-in-function-read', 'def f_(parts):\n    import os.path\n    return os.path.join(*parts)\n', [], path)
+        one('dotted-import-in-function-read-by-closure', 'def f_():\n    import xml.dom\n    return lambda: xml.dom\n', [], path)
+        one('dotted-import-in-function-read-through-branches',
+            'def f_(c):\n    if c:\n        import logging.config\n    else:\n        import logging.handlers\n    return logging\n', [], path)
+        one('dotted-import-in-function-never-read', 'def f_():\n    import os.path\n', [('W01', 'Unused name: os', 2, 11)], path)
+        one('dotted-import-in-function-read-elsewhere', 'import os.path\ndef f_():\n    import os.path\nprint(os)\n', [('W01', 'Unused name: os', 3, 11)], path)
+        # declarations: `global` at module level changes nothing; in a function the binding belongs to the module
+        one('module-level-global-then-unused-import', 'global os\nimport os\n', [('W02', 'Unused import: os', 2, 7)], path)
+        one('module-level-global-then-unused-from-import', 'global path\nfrom os import path\nimport sys\nprint(sys)\n',
+            [('W02', 'Unused import: path', 2, 15)], path)
+        one('module-level-global-then-used-import', 'global os\nimport os\nprint(os)\n', [], path)
+        one('module-level-global-then-assignment', 'global unused_v\nunused_v = 1\n', [], path)
+        one('function-global-then-assignment', 'def f_():\n    global unused_v\n    unused_v = 1\n', [], path)
+        one('function-nonlocal-rebinding', 'def f_():\n    v_ = 1\n    def g_():\n        nonlocal v_\n        v_ = 2\n    return g_, v_\n', [], path)
     core.explore(lambda: None, lambda p, out: go(p))
